@@ -112,13 +112,33 @@ def thin {α} (stride : Nat) (l : List α) : List α :=
   if stride ≤ 1 then l else
   (l.zipIdx.filter fun p => p.2 % stride == 0).map (·.1)
 
-def inputStacks (al : Alphabet) (thorough : Bool) : List (List Bytes) :=
-  let upTo3 := stacksOfLen al.full 0 ++ stacksOfLen al.full 1 ++ stacksOfLen al.full 2 ++ stacksOfLen al.full 3
-  if thorough then
+/-- number of elements `thin stride` keeps of a list of length `n` -/
+def thinCount (stride n : Nat) : Nat := if stride ≤ 1 then n else (n + stride - 1) / stride
+
+/-- The input stacks tried for one fragment (before the sentinel is put below them).
+tier 0 (light): ALL stacks of length ≤ 2 over the full alphabet + length 3 over the core alphabet
+  (thinned to ≤ 600);
+tier 1 (quick): ALL stacks of length ≤ 3 over the full alphabet + length 4 over the core alphabet
+  (thinned to ≤ 2000);
+tier 2 (thorough): ALL of length ≤ 3 + length 4 over the full alphabet (thinned to ≤ 20000) +
+  length 5 over the core alphabet (thinned to ≤ 5000). -/
+def inputStacks (al : Alphabet) (tier : Nat) : List (List Bytes) :=
+  let upTo2 := stacksOfLen al.full 0 ++ stacksOfLen al.full 1 ++ stacksOfLen al.full 2
+  let upTo3 := upTo2 ++ stacksOfLen al.full 3
+  if tier == 0 then
+    upTo2 ++ thin ((al.core.length ^ 3 + 599) / 600) (stacksOfLen al.core 3)
+  else if tier == 1 then
+    upTo3 ++ thin ((al.core.length ^ 4 + 1999) / 2000) (stacksOfLen al.core 4)
+  else
     upTo3 ++ thin ((al.full.length ^ 4 + 19999) / 20000) (stacksOfLen al.full 4)
       ++ thin ((al.core.length ^ 5 + 4999) / 5000) (stacksOfLen al.core 5)
-  else
-    upTo3 ++ thin ((al.core.length ^ 4 + 1999) / 2000) (stacksOfLen al.core 4)
+
+/-- closed form of `(inputStacks al tier).length`, compared with the harness' own count -/
+def inputStacksCount (a c : Nat) (tier : Nat) : Nat :=
+  let upTo2 := 1 + a + a ^ 2
+  if tier == 0 then upTo2 + thinCount ((c ^ 3 + 599) / 600) (c ^ 3)
+  else if tier == 1 then upTo2 + a ^ 3 + thinCount ((c ^ 4 + 1999) / 2000) (c ^ 4)
+  else upTo2 + a ^ 3 + thinCount ((a ^ 4 + 19999) / 20000) (a ^ 4) + thinCount ((c ^ 5 + 4999) / 5000) (c ^ 5)
 
 def sentinel : List Bytes := [[0xAA], [0xBB]]
 
@@ -147,13 +167,13 @@ def showStack (s : List Bytes) : String :=
 
 /-- `script` = the LIBRARY's encoding of `ms` (parsed); `ms` itself is only used to collect the
 atoms for the alphabet and for the canonical dissatisfaction candidate -/
-def judgeTypeExec (t : Tables) (ctx : Ctx) (ms : Ms) (script : List Op) (ty : Ty) (thorough : Bool) : String :=
+def judgeTypeExec (t : Tables) (ctx : Ctx) (ms : Ms) (script : List Op) (ty : Ty) (tier : Nat) : String :=
   let ke := t.keyEnv
-  let al := mkAlphabet t ctx ms thorough
+  let al := mkAlphabet t ctx ms (tier == 2)
   let base := ty.corr.base
   let effScript := if base == .K then script ++ [.code .checksig] else script
   let sigFree (s : List Bytes) : Bool := !s.any al.validSigs.contains
-  let ins := inputStacks al thorough
+  let ins := inputStacks al tier
   let xs : List Bytes := [[0x09], []]
   -- W fragments get the `x` they shuffle on top of the inputs
   let full : List (List Bytes) :=
@@ -183,26 +203,50 @@ def judgeTypeExec (t : Tables) (ctx : Ctx) (ms : Ms) (script : List Op) (ty : Ty
     | some (l, inp) => some s!"bad:{l}:{showStack inp}:tx={lt}/{sq}"
   (verdicts.findSome? id).getD "ok"
 
+def tierOfOp : String → Option Nat
+  | "typeexecq" => some 0 | "typeexec" => some 1 | "typeexecx" => some 2 | _ => none
+
 def opsTypeExec (t : Tables) (kind op : String) (args : List String) : Option String :=
   match kind, op, args with
-  -- J typeexec <ctx> <ast> <script the library encoded> <type the library assigned>
-  | "J", "typeexec", [ctx, ast, script, ty] => do
-    let ctx ← parseCtx ctx; let ms ← parseAst ast; let ty ← Ty.ofStr? ty
-    let script ← Hash.ofHex script
-    pure (match parse script with
-      | some ops => judgeTypeExec t ctx ms ops ty false
-      | none => "bad:unparseable-script")
-  | "J", "typeexecx", [ctx, ast, script, ty] => do
-    let ctx ← parseCtx ctx; let ms ← parseAst ast; let ty ← Ty.ofStr? ty
-    let script ← Hash.ofHex script
-    pure (match parse script with
-      | some ops => judgeTypeExec t ctx ms ops ty true
-      | none => "bad:unparseable-script")
   -- negative control: a deliberately TOO STRONG type must be refuted on letter `l`
   | "J", "typeexecneg", [ctx, ast, ty, l] => do
     let ctx ← parseCtx ctx; let ms ← parseAst ast; let ty ← Ty.ofStr? ty
-    let v := judgeTypeExec t ctx ms (encode t.keyEnv ctx ms) ty false
+    let v := judgeTypeExec t ctx ms (encode t.keyEnv ctx ms) ty 1
     pure (if v.startsWith s!"bad:{l}:" then "refuted" else s!"missed:{v}")
+  -- the same with the light input enumeration (shows that tier 0 is not vacuous either)
+  | "J", "typeexecnegq", [ctx, ast, ty, l] => do
+    let ctx ← parseCtx ctx; let ms ← parseAst ast; let ty ← Ty.ofStr? ty
+    let v := judgeTypeExec t ctx ms (encode t.keyEnv ctx ms) ty 0
+    pure (if v.startsWith s!"bad:{l}:" then "refuted" else s!"missed:{v}")
+  -- size of the input domain of one fragment (makes the exhaustive part explicit):
+  -- C typeexecdom <ctx> <ast> <tier 0|1|2>
+  | "C", "typeexecdom", [ctx, ast, tier] => do
+    let ctx ← parseCtx ctx; let ms ← parseAst ast; let tier ← tier.toNat?
+    let al := mkAlphabet t ctx ms (tier == 2)
+    let n := (inputStacks al tier).length
+    if n != inputStacksCount al.full.length al.core.length tier then pure "bad:count-formula" else
+    pure s!"A={al.full.length} C={al.core.length} stacks={n} tx={(txSettings ms).length}"
+  -- parser path: the string `form(ast)` (form = plain | sugar, printed by the harness from the
+  -- neutral AST with t: l: u: and_n pk pkh for the sugar form) went through `from_str`; the
+  -- library's type / script of the result are compared with the MODEL's typeOf / encode of `ast`
+  | "C", "typeofstr", [_ctx, _form, ast] => do
+    let ms ← parseAst ast
+    pure (match typeOf ms with | some ty => ty.toStr | none => "ERR")
+  | "C", "encodestr", [ctx, _form, ast] => do
+    let ctx ← parseCtx ctx; let ms ← parseAst ast
+    pure (Hash.toHexW (encodeBytes t.keyEnv ctx ms))
+  -- J strparse <ctx> <form> <ast> <ok|err:…>: a fragment the typing model accepts must parse
+  | "J", "strparse", [_ctx, _form, ast, verdict] => do
+    let ms ← parseAst ast
+    pure (if (typeOf ms).isSome == (verdict == "ok") then "ok" else s!"bad:parser-verdict-{verdict}-but-model-typing-says-{(typeOf ms).isSome}")
+  -- J typeexec[q|x] <ctx> <ast> <script the library encoded> <type the library assigned>
+  | "J", op, [ctx, ast, script, ty] => do
+    let tier ← tierOfOp op
+    let ctx ← parseCtx ctx; let ms ← parseAst ast; let ty ← Ty.ofStr? ty
+    let script ← Hash.ofHex script
+    pure (match parse script with
+      | some ops => judgeTypeExec t ctx ms ops ty tier
+      | none => "bad:unparseable-script")
   | _, _, _ => none
 
 end MsVerif.Driver
